@@ -5,6 +5,7 @@ All statements quantify over every token tuple (hence, through `tokenize`, over 
 -/
 import MesonModel.Version.RangeLemmas
 import MesonModel.Version.TokLemmas
+import MesonModel.Version.GateLemmas
 
 namespace MesonModel.Props.C19
 open MesonModel.Version MesonModel.Py
@@ -321,6 +322,58 @@ theorem condWithMin_sound (cond : Range) (minimum : List Char)
     have t := Lt.total x m
     cases hq : cond.minEq <;> simp [hq] at this <;> grind [Lt.irrefl, Lt.trans, Lt.total]
 
+
+/-! ### The range algebra as `evaluate_if` applies it to feature checks
+
+`GBlock` abstracts a block of build-definition code to its `if`/`elif`/`else` structure, with each condition
+reduced to the range its `meson.version().version_compare()` call records (if it makes one) and its truth
+value; `runBlock` is `evaluate_codeblock`/`evaluate_if` with `tmp_meson_version` threaded as interpreter
+state; a probe logs the project's version range in force where it runs — what a `FeatureNew` check there
+reads. -/
+
+/-- the range in force at every executed statement is the range in force outside the block narrowed by exactly
+the version checks of the clauses enclosing the statement — whatever `tmp_meson_version` held before -/
+theorem gate_log_eq_spec (b : GBlock) (cur : Range) (tmp : GTmp) :
+    (runBlock b cur tmp).1 = (pathsBlock b).map (fun p => (p.1, narrow cur p.2)) :=
+  runBlock_log b cur tmp
+
+/-- soundness of the application: a version lies in the range a statement runs under iff it lies in the
+outer range and satisfies the check of every enclosing clause that makes one (nothing leaks in from a
+sibling clause, an earlier statement or a condition that was evaluated but not taken) -/
+theorem gate_sound (b : GBlock) (cur : Range) (tmp : GTmp) (n : Nat) (r : Range)
+    (h : (n, r) ∈ (runBlock b cur tmp).1) :
+    ∃ path, (n, path) ∈ pathsBlock b ∧
+      ∀ x : Ver, r.contains x = true ↔ (cur.contains x = true ∧ ∀ q ∈ path, q.contains x = true) := by
+  rw [gate_log_eq_spec] at h
+  obtain ⟨p, hp, he⟩ := List.mem_map.1 h
+  refine ⟨p.2, ?_, ?_⟩
+  · have : p.1 = n := by simpa using congrArg Prod.fst he
+    rw [← this]; exact hp
+  · intro x
+    have : r = narrow cur p.2 := by simpa using (congrArg Prod.snd he).symm
+    rw [this]; exact mem_narrow cur p.2 x
+
+/-- what `tmp_meson_version` holds when a block starts never matters -/
+theorem gate_tmp_irrelevant (b : GBlock) (cur : Range) (t1 t2 : GTmp) :
+    (runBlock b cur t1).1 = (runBlock b cur t2).1 := by
+  rw [gate_log_eq_spec, gate_log_eq_spec]
+
+/-- after an `if` statement the range in force is the one before it (the next statement of the same block
+runs under `cur` again) -/
+theorem gate_restored (cs : GClauses) (n : Nat) (cur : Range) (tmp : GTmp) :
+    (n, cur) ∈ (runBlock (.cons (.ifs cs) (.cons (.probe n) .nil)) cur tmp).1 := by
+  rw [gate_log_eq_spec]
+  simp [pathsBlock, pathsStmt, narrow]
+
+/-- resetting `tmp_meson_version` once per `if` statement instead of once per clause is NOT equivalent:
+`if meson.version().version_compare('>=9') … elif true  probe` -/
+theorem gate_hoisted_reset_counterexample :
+    let ge9 : Range := Range.new (some (tokenize "9".toList)) true none false
+    let prog : GBlock := .cons (.ifs (.cons ⟨some ge9, false⟩ .nil
+                                      (.cons ⟨none, true⟩ (.cons (.probe 0) .nil) (.els .nil)))) .nil
+    (runBlockH prog {} none).1 ≠ (runBlock prog {} none).1 := by
+  decide
+
 /-! ### Non-vacuity: concrete instances meeting the hypotheses -/
 
 example : vlt (tokenize "1.2".toList) (tokenize "1.10".toList) = true := by decide
@@ -332,5 +385,12 @@ example : (Range.new (some (tokenize "1".toList)) true (some (tokenize "3".toLis
     (Range.new (some (tokenize "0".toList)) true none false) = some true := by decide
 example : (Range.new (some (tokenize "1".toList)) true (some (tokenize "3".toList)) false).always
     (Range.new (some (tokenize "4".toList)) true none false) = some false := by decide
+example :
+    let ge1 : Range := Range.new (some (tokenize "1".toList)) true none false
+    let lt3 : Range := Range.new none false (some (tokenize "3".toList)) false
+    let prog : GBlock := .cons (.ifs (.cons ⟨some ge1, true⟩
+        (.cons (.ifs (.cons ⟨some lt3, true⟩ (.cons (.probe 7) .nil) (.els .nil))) (.cons (.probe 8) .nil))
+        (.els .nil))) (.cons (.probe 9) .nil)
+    (pathsBlock prog) = [(7, [ge1, lt3]), (8, [ge1]), (9, [])] := by decide
 
 end MesonModel.Props.C19
